@@ -1,0 +1,41 @@
+//go:build verif
+
+// Package vhook provides named points used by external verification tooling.
+// With the "verif" build tag a handler can be installed that is called at
+// every point; what happens there (logging, delays, blocking, snapshots) is
+// decided entirely by the handler.
+package vhook
+
+import "sync/atomic"
+
+type handlerFunc func(name string, v any)
+
+var handler atomic.Pointer[handlerFunc]
+
+// Enabled reports that hooks are compiled in.
+const Enabled = true
+
+// Set installs the handler called at every point. A nil handler disables all
+// points.
+func Set(f func(name string, v any)) {
+	if f == nil {
+		handler.Store(nil)
+		return
+	}
+	h := handlerFunc(f)
+	handler.Store(&h)
+}
+
+// At marks a named point in the code.
+func At(name string) {
+	if h := handler.Load(); h != nil {
+		(*h)(name, nil)
+	}
+}
+
+// AtV marks a named point in the code and passes a value to the handler.
+func AtV(name string, v any) {
+	if h := handler.Load(); h != nil {
+		(*h)(name, v)
+	}
+}
